@@ -7,7 +7,8 @@ MODES = [True, False]
 
 # the configuration grid of harness/src/bin/c09.rs (all four digit types; widths that are not multiples of each
 # other: 24, 40, 136 bits against 16/32/64-bit digits; 48, 80, 96, 192 bits)
-CFG = [(8, 1), (8, 2), (8, 3), (8, 5), (8, 17), (16, 1), (16, 3), (16, 5), (32, 1), (32, 3), (64, 1), (64, 2), (64, 3)]
+# (8, 300): more than 256 digits (narrow counters); (64, 1025): wider than 2^16 bits (narrow width arithmetic)
+CFG = [(8, 1), (8, 2), (8, 3), (8, 5), (8, 17), (8, 300), (16, 1), (16, 3), (16, 5), (32, 1), (32, 3), (64, 1), (64, 2), (64, 3), (64, 1025)]
 # (bits, signed); bits 0 = usize / isize (to_size / from_size)
 PRIMS = [(b, s) for s in (False, True) for b in (8, 16, 32, 64, 128, 0)]
 
@@ -44,6 +45,15 @@ def structured_sources(w, n, tb, wds):
         ks |= set(range(wd, sb, wd))
     if tb < sb:
         ks.add(tb)
+    if len(ks) > 240:
+        # very wide source: the lowest and highest boundaries, those next to the target width, next to 2^15 / 2^16 bits and
+        # next to digit 256 (narrow counters / narrow width arithmetic), and an evenly spaced sample
+        srt = sorted(ks)
+        near = lambda x: [k for k in srt if abs(k - x) <= 2 * max(wds)]
+        keep = set(srt[:40]) | set(srt[-40:]) | set(srt[::max(1, len(srt) // 60)])
+        for x in (tb, 1 << 15, 1 << 16, 256 * w, 255 * w, 257 * w):
+            keep |= set(near(x))
+        ks = keep
     for k in ks:
         for d in (-1, 0, 1):
             vs.add(((1 << k) + d) % M)          # 0..01 0..0 | 0..0 1..1
